@@ -628,7 +628,7 @@ impl Case {
                     Err(_) => {
                         self.dead = true;
                         // a panic is only legitimate when the caller broke the hook's contract
-                        let legit = (*force && !can) || !ready || (kind == Kind::KeyedSingleton);
+                        let legit = (*force && !can) || !ready || (kind == Kind::KeyedSingleton && !keyed_singleton_wf(&self.slots[*i]));
                         rec.check(legit, &format!("panic@{}", kind.site()), &format!("{line} pre={pre:?}"));
                         rec.count("panic");
                         (line, "panic".into())
@@ -677,6 +677,8 @@ impl Case {
                 rec.count(&format!("run:hooks={n}"));
                 let idle = (0..n).all(|i| self.hooks[i].current_decision().is_none());
                 let can_run = (0..n).all(|i| self.hooks[i].is_ready()) && (0..n).any(|i| self.can_release(i));
+                let cannot = (0..n).filter(|&i| !self.hooks[i].can_make_nontrivial_decision()).count();
+                let last_can = (0..n).filter(|&i| self.hooks[i].can_make_nontrivial_decision()).last();
                 let ks_ok = (0..n).all(|i| self.slots[i].h.kind != Kind::KeyedSingleton || keyed_singleton_wf(&self.slots[i]));
                 for i in 0..n {
                     if self.hooks[i].current_decision().is_none() {
@@ -692,17 +694,30 @@ impl Case {
                     Ok(()) => {
                         let mut outs = vec![];
                         let mut any_nt = false;
+                        let mut nt_hooks: Vec<usize> = vec![];
                         for i in 0..n {
                             let out = self.slots[i].h.out.drain();
                             let post = snap(&self.slots[i].h);
                             if let Some(pre) = self.slots[i].pre.take() {
-                                any_nt |= oracle_release(rec, &mut self.slots[i], &pre, &out, &post);
+                                if oracle_release(rec, &mut self.slots[i], &pre, &out, &post) {
+                                    any_nt = true;
+                                    nt_hooks.push(i);
+                                }
                             }
                             rec.check(self.hooks[i].current_decision().is_none(), "decision-left-pending@run_hooks", &format!("hook {i}"));
                             outs.push(fmt_msgs(&out));
                         }
                         if can_run && idle {
                             rec.check(any_nt, "tick-without-progress@run_hooks", &format!("{line}: a runnable tick released nothing new"));
+                            // which path of the two-pass forcing logic carried the progress
+                            if cannot > 0 {
+                                rec.count("branch:run_hooks:first-pass-trivial-decisions");
+                            }
+                            if nt_hooks.len() == 1 && Some(nt_hooks[0]) == last_can {
+                                rec.count("branch:run_hooks:progress-only-from-last-undecided-hook");
+                            } else if nt_hooks.len() > 1 {
+                                rec.count("branch:run_hooks:several-nontrivial");
+                            }
                         }
                         if any_nt {
                             rec.nontrivial();
